@@ -348,16 +348,18 @@ def _shards(tier):
     else:
         for rt in (1, 2):
             for br in range(3):
-                out.append(({"stream": 1, "nworkers": 2, "t0": 1, "t1": 1, "broken": br, "fkind": 0, "depth": 9, "routes": rt}, 3000))
+                out.append(({"stream": 1, "nworkers": 2, "t0": 1, "t1": 1, "broken": br, "fkind": 0, "depth": 7, "routes": rt}, 3000))
         for st in (0, 1):
+            # every (t0, t1, broken) configuration at a shallower depth, the quick configurations one level deeper
             for a in range(3):
                 for b in range(3):
                     for br in range(5):
-                        out.append(({"stream": st, "nworkers": 2, "t0": a, "t1": b, "broken": br, "fkind": 0, "depth": 10, "routes": 0}, 3000))
-            for fk, rng in ((1, range(10)), (2, range(3)), (3, range(5))):
+                        out.append(({"stream": st, "nworkers": 2, "t0": a, "t1": b, "broken": br, "fkind": 0, "depth": 6, "routes": 0}, 3000))
+            out.append(({"stream": st, "nworkers": 2, "t0": 1, "t1": 1, "broken": 0, "fkind": 0, "depth": 9, "routes": 0}, 3000))
+            out.append(({"stream": st, "nworkers": 1, "t0": 2, "broken": 0, "fkind": 0, "depth": 9}, 3000))
+            for fk, rng in ((1, range(8)), (2, range(3)), (3, range(4))):
                 for fp in rng:
-                    out.append(({"stream": st, "nworkers": 2, "t0": 1, "t1": 1, "broken": 0, "fkind": fk, "fpos": fp, "depth": 9}, 3000))
-                    out.append(({"stream": st, "nworkers": 2, "t0": 2, "t1": 1, "broken": 2, "fkind": fk, "fpos": fp, "depth": 8}, 3000))
+                    out.append(({"stream": st, "nworkers": 2, "t0": 1, "t1": 1, "broken": 0, "fkind": fk, "fpos": fp, "depth": 7}, 3000))
     for fix, _t in out:
         fix.setdefault("routes", 0)
     return out
@@ -376,7 +378,7 @@ HARNESSES = [
                              "each of the first k choice points (k = 6..8). Configurations: 2 workers x 1 test each (stream suite also with both workers sharing one route code, a string or None); a worker whose run() "
                              "raises; a worker that ends with SystemExit after its test; 1 worker x 2 tests; faults: the caller's result raises at its call/event 0, 2, 3; make_tests raises "
                              "after yielding 0, 1, 2 sub-suites; KeyboardInterrupt out of the caller's 1st / 2nd queue.get()",
-                    "thorough": "every (t0, t1, broken) in 0..2 x 0..2 x {none, worker 0 / 1 raises, worker 0 / 1 ends with SystemExit} with k = 10; every fault position with k = 8..9"},
+                    "thorough": "every (t0, t1, broken) in 0..2 x 0..2 x {none, worker 0 / 1 raises, worker 0 / 1 ends with SystemExit} with k = 6; the quick configurations with k = 9; every fault position (result call 0..7, make_tests 0..2, queue.get 0..3) with k = 7"},
             rule="one schedule per path; non-trivial = at least one point with more than one runnable thread",
             twin_fix={"stream": 0, "nworkers": 2, "t0": 1, "t1": 1, "broken": 0, "fkind": 0, "depth": 3, "routes": 0},
             describe=_describe,
